@@ -92,7 +92,11 @@ static void check_block (const axis_t *ax, const axis_t *ay, int draw)
         uint32_t colour = 0xff000000u | ((uint32_t)(w * 37 + h * 11 + ax->bits) * 0x010305u & 0xffffff);
         if (draw & 2) colour = 0xffffffffu;
         for (int i = 0; i < 256; i++) srcpx[i] = colour;
-        pixman_image_t *src = pixman_image_create_bits (PIXMAN_a8r8g8b8, 16, 16, srcpx, 64);
+        /* the consumer side of "a constant image stays constant": the specialised affine fetcher (a8r8g8b8 with a scale), and the general per-pixel fetcher
+         * (another channel order, no transform at all, or a homogeneous matrix that is not normalised) */
+        int variant = (draw >> 3) % 4;
+        pixman_format_code_t sfmt = variant == 1 ? PIXMAN_a8b8g8r8 : PIXMAN_a8r8g8b8;
+        pixman_image_t *src = pixman_image_create_bits (sfmt, 16, 16, srcpx, 64);
         pixman_image_t *dst = pixman_image_create_bits (PIXMAN_a8r8g8b8, 8, 8, dstpx, 32);
         if (src && dst) {
             vf_inflight ("set_filter n_values=%d w=%d h=%d", n_values, w, h);
@@ -102,14 +106,18 @@ static void check_block (const axis_t *ax, const axis_t *ay, int draw)
             else if ((draw & 1) && (long)w * h <= 200) {
                 pixman_transform_t tr; pixman_transform_init_scale (&tr, ax->scale < 0 ? -ax->scale : ax->scale, ay->scale < 0 ? -ay->scale : ay->scale);
                 tr.matrix[0][2] = 3 * 65536 + 12345; tr.matrix[1][2] = 2 * 65536 + 54321;
-                pixman_image_set_transform (src, &tr);
+                if (variant == 3) { int fits = 1; for (int i = 0; i < 3; i++) for (int j = 0; j < 3; j++) if (tr.matrix[i][j] > 0x3fffffff || tr.matrix[i][j] < -0x3fffffff) fits = 0;
+                    if (fits) for (int i = 0; i < 3; i++) for (int j = 0; j < 3; j++) tr.matrix[i][j] *= 2; }     /* same map, w = 2 */
+                if (variant != 2) pixman_image_set_transform (src, &tr);
+                vf_label ("constant_image_variants", "%s", variant == 0 ? "a8r8g8b8 affine" : variant == 1 ? "a8b8g8r8 affine (general fetcher)" : variant == 2 ? "no transform" : "homogeneous w=2");
                 pixman_image_set_repeat (src, (draw & 4) ? PIXMAN_REPEAT_NORMAL : PIXMAN_REPEAT_PAD);
                 memset (dstpx, 0x55, sizeof dstpx);
                 vf_inflight ("composite constant image through the filter w=%d h=%d", w, h);
                 pixman_image_composite32 (PIXMAN_OP_SRC, src, NULL, dst, 0, 0, 0, 0, 0, 0, 8, 8);
                 vf_count ("evaluations", 64); vf_count ("constant_image_draws", 1);
-                for (int i = 0; i < 64; i++) if (dstpx[i] != colour) {
-                    vf_violation ("C18:constant-not-preserved", "constant image %08x filtered to %08x at pixel %d (w=%d h=%d)", colour, dstpx[i], i, w, h);
+                uint32_t want = colour; if (variant == 1) want = (colour & 0xff00ff00u) | ((colour & 0xff) << 16) | ((colour >> 16) & 0xff);
+                for (int i = 0; i < 64; i++) if (dstpx[i] != want) {
+                    vf_violation ("C18:constant-not-preserved", "constant image %08x filtered to %08x at pixel %d (w=%d h=%d, variant %d)", want, dstpx[i], i, w, h, variant);
                     break;
                 }
             }
@@ -144,7 +152,7 @@ static void filter_case (long idx, vf_rng *rng)
         }
     }
     axis_clamp (&ax); axis_clamp (&ay);
-    check_block (&ax, &ay, (int)(vf_next (rng) % 8));
+    check_block (&ax, &ay, (int)(vf_next (rng) % 32));
     /* the block is a function of the arguments alone: the same request repeated after a different one gives the same bytes */
     if (strcmp (vf.config, "grid") && (idx & 1)) {
         int n1 = -1, n2 = -1, n3 = -1;
